@@ -459,8 +459,9 @@ claim("C22",
       "bounded, not proved. The resolution guarantee assumed for the re-entrant `resource.resolve(self)` is PROVED for "
       "the repository's factory-backed descriptor (`_Resource.resolve` / `call` / `_resolve_dependencies`, with "
       "signature inspection `get_dependencies`, the user factory and the composite re-entrant `get()` as named "
-      "assumptions) and stays assumed for `_ResourceConfig.resolve` (reads a file, has no manager in reach) and for "
-      "user-written descriptor classes. asyncio.Lock and current_task are assumed library contracts.",
+      "assumptions) and for the config-backed one (`_ResourceConfig.resolve`: never touches the manager; its file "
+      "reading `call()` assumed), and stays assumed only for user-written descriptor classes. asyncio.Lock and "
+      "current_task are assumed library contracts.",
       category="other",
       technique="contract-based deductive verification: pre/postconditions (normal and exceptional exits) on the real "
                 "`_get`, `set`, `_resolution_lock` and on mechanically extracted sections (pyvc + z3, ghost call log "
